@@ -27,15 +27,18 @@ def _mhash(method):
     return sum((i + 1) * ord(ch) for i, ch in enumerate(method)) % 97
 
 
+UNIT = 1.0      # every stub value is an integer times UNIT (a power of two: the same model in other units; sums stay exact)
+
+
 def stubval(cid, method, shape, args):
-    """Deterministic integer-valued float array of the given shape (() for scalars)."""
+    """Deterministic float array of the given shape (() for scalars): integers times UNIT."""
     s = 0
     for k, a in enumerate(args):
         a = np.atleast_1d(np.asarray(a, dtype=float))
         s += (k + 1) * float(a @ np.arange(1, a.size + 1))
     base = cid * 7 + _mhash(method)
     if shape == ():
-        return float((base % 7) - 3 + s)
+        return float((base % 7) - 3 + s) * UNIT
     out = np.empty(shape)
     it = np.ndindex(*shape)
     for idx in it:
@@ -43,7 +46,7 @@ def stubval(cid, method, shape, args):
         for d, i in enumerate(idx):
             v += (3 + 2 * d) * i
         out[idx] = (v % 7) - 3 + s
-    return out
+    return out * UNIT
 
 
 class Stub:
